@@ -167,7 +167,12 @@ func (c Color) Params() []uint8
 func IndexColor(index uint8) Color
   ensures C07_val: result == index + 16777216
 
+func HexColor(v uint32) Color
+  bitwidth 32
+  ensures C07_rgb: result & rgb != 0
+
 func RGBColor(r uint8, g uint8, b uint8) Color
+  bitwidth 24
   ensures C07_val: result == r * 65536 + g * 256 + b + 33554432
 
 -- asIndex: a direct colour is mapped to the palette entry (16-255) nearest to it under D; other colours are kept.
@@ -177,14 +182,48 @@ func (c Color) asIndex() Color
                           (result == 16777216 + 16 + k
                            && (forall j in 0..len(colorIndex): D(colorIndex[k], c) <= D(colorIndex[j], c))))
   ensures C07_notrgb:  c & rgb != 0 ==> (result & rgb == 0 && result & indexed != 0)
-  loop 1 invariant best: -1 <= rangeindex && rangeindex < len(colorIndex) && dist != 0.0
-                      && (forall k in 0..rangeindex+1: dist <= D(colorIndex[k], c))
-                      && (rangeindex >= 0 ==> (0 <= match && match <= rangeindex && dist == D(colorIndex[match], c)))
-                      && (rangeindex < 0 ==> match == -1)
+  loop 1 invariant rng:   -1 <= rangeindex && rangeindex < len(colorIndex) && dist != 0.0
+  loop 1 invariant least: forall k in 0..rangeindex+1: dist <= D(colorIndex[k], c)
+  lemma dbound: D(colorIndex[0], c) < 200000.0
+  loop 1 invariant arg:   (match == -1 && dist > 1000000000000000000000000000000.0)
+                       || (0 <= match && match <= rangeindex && dist == D(colorIndex[match], c))
+
+-- grapheme width: gwidth is a pure function of (string, method); gw names it (assumed: determinism of uniseg/runewidth)
+ufun gw(s string, m graphemeWidthMethod) int
+func gwidth(s string, method graphemeWidthMethod) int
+  ensures def: result == gw(s, method)
+  modifies nothing
+
+-- graphemes are measured with the method that matches the advertised capabilities (C07)
+func (vx *Vaxis) RenderedWidth(s string) int
+  ensures C07_method: result == gw(s, (vx.caps.unicodeCore || vx.caps.explicitWidth) ? unicodeStd : (vx.caps.noZWJ ? noZWJ : wcwidth))
+
+-- the capabilities Vaxis reports are exactly the flags the replies established (C07)
+func (vx *Vaxis) CanRGB() bool
+  ensures C07_cap: result == vx.caps.rgb
+func (vx *Vaxis) CanKittyGraphics() bool
+  ensures C07_cap: result == vx.caps.kittyGraphics
+func (vx *Vaxis) CanSixel() bool
+  ensures C07_cap: result == vx.caps.sixels
+func (vx *Vaxis) CanReportColor() bool
+  ensures C07_cap: result == vx.caps.osc4
+func (vx *Vaxis) CanReportForegroundColor() bool
+  ensures C07_cap: result == vx.caps.osc10
+func (vx *Vaxis) CanReportBackgroundColor() bool
+  ensures C07_cap: result == vx.caps.osc11
+func (vx *Vaxis) CanDisplayGraphics() bool
+  ensures C07_cap: result == (vx.caps.sixels || vx.caps.kittyGraphics)
+func (vx *Vaxis) CanSetAppID() bool
+  ensures C07_cap: result == vx.caps.osc176
+func (vx *Vaxis) CanUnicodeCore() bool
+  ensures C07_cap: result == vx.caps.unicodeCore
+func (vx *Vaxis) CanExplicitWidth() bool
+  ensures C07_cap: result == vx.caps.explicitWidth
 
 -- Assumed (unverified) frames of the two Vaxis services the embedded terminal calls from OSC handling:
 -- they talk to the host terminal and touch no emulator state.
 func (vx *Vaxis) QueryBackground() Color
+  ensures C07_kind: result == 0 || (result & rgb != 0 && result & indexed == 0)
   modifies nothing
 func (vx *Vaxis) ClipboardPush(b string)
   modifies nothing
